@@ -478,6 +478,18 @@ pub mod verif_queue {
                 Err(PushError::Closed) => VPush::Closed,
             }
         }
+        /// Pushes a value, calling `inner` after the slot has been reserved and
+        /// before the message is published (i.e. while the push is in flight).
+        pub fn push_with<F: FnOnce()>(&self, value: u64, inner: F) -> VPush {
+            match self.q.push(|b| {
+                inner();
+                RecycleBox::recycle(b, value)
+            }) {
+                Ok(()) => VPush::Ok,
+                Err(PushError::Full(_)) => VPush::Full,
+                Err(PushError::Closed) => VPush::Closed,
+            }
+        }
         pub fn close(&self) {
             self.q.close()
         }
